@@ -82,12 +82,13 @@ Proof.
   - unfold plain_reply in H. chks H. okinv H. km_tac.
   - unfold step_cts_send in H. chks H. okinv H. km_tac.
   - unfold step_cts_deliver in H. chks H. destruct st; chks H; try (okinv H; km_tac);
+      try match type of H with context [if ?b then setc _ _ _ else _] => destruct b end;
       (destruct (step_key _ _ _ _) eqn:E; try discriminate; okinv H; km_tac).
   - chks H. okinv H. km_tac.
   - unfold plain_send in H. chks H. okinv H. km_tac.
-  - unfold step_csl_deliver in H. chks H. destruct st; try (okinv H; km_tac).
+  - unfold step_csl_deliver in H. chks H. destruct st; chks H; try (okinv H; km_tac).
     + destruct (step_csl_locks _ _ _) eqn:E; try discriminate. okinv H. km_tac.
-    + destruct (c =? 0); [destruct (step_keys _ _ _ _) eqn:E; try discriminate |]; okinv H; km_tac.
+    + destruct (c =? 0); chks H; [destruct (step_keys _ _ _ _) eqn:E; try discriminate |]; okinv H; km_tac.
   - chks H. okinv H. km_tac.
   - unfold step_rs_send in H. chks H. destruct (just_cts s r T c); chks H; okinv H; km_tac.
   - unfold step_rs_deliver in H. chks H. destruct x; try (okinv H; km_tac).
@@ -137,15 +138,15 @@ Ltac getc_keys :=
 (* once Commit has returned, its answer, the mutation list and the primary never change;
    the mutation list and the primary never change once logged *)
 Lemma stepr_frozen : forall s e s' T0, stepr s e = Ok s' ->
-  (F s T0 FTold <> 0 -> F s' T0 FTold = F s T0 FTold) /\
+  (F s T0 FTold <> 0 -> F s' T0 FTold = F s T0 FTold /\ F s' T0 FTriedA = F s T0 FTriedA /\ F s' T0 FTried1 = F s T0 FTried1) /\
   (hasm s T0 -> hasm s' T0 /\ prim s' T0 = prim s T0 /\ lm s' T0 = lm s T0).
 Proof.
   intros s e s' T0 H.
   destruct (option_map (N.eqb T0) (txn_of e)) as [[|] |] eqn:Et.
   2: { assert (A : agree s s' T0) by (apply (step_agree s e s' T0 H); intros E'; rewrite E' in Et; cbn in Et; rewrite N.eqb_refl in Et; discriminate).
-       split; [intros _; apply (ag_F _ _ _ A); reflexivity |]. intros Hh. rewrite (ag_hasm _ _ _ A), (ag_prim _ _ _ A), (ag_lm _ _ _ A). auto. }
+       split; [intros _; repeat split; apply (ag_F _ _ _ A); reflexivity |]. intros Hh. rewrite (ag_hasm _ _ _ A), (ag_prim _ _ _ A), (ag_lm _ _ _ A). auto. }
   2: { assert (A : agree s s' T0) by (apply (step_agree s e s' T0 H); intros E'; rewrite E' in Et; discriminate).
-       split; [intros _; apply (ag_F _ _ _ A); reflexivity |]. intros Hh. rewrite (ag_hasm _ _ _ A), (ag_prim _ _ _ A), (ag_lm _ _ _ A). auto. }
+       split; [intros _; repeat split; apply (ag_F _ _ _ A); reflexivity |]. intros Hh. rewrite (ag_hasm _ _ _ A), (ag_prim _ _ _ A), (ag_lm _ _ _ A). auto. }
   destruct (txn_of e) as [T1 |] eqn:Et'; cbn [option_map] in Et; inversion Et as [Et1]. apply N.eqb_eq in Et1. subst T1.
   unfold hasm, prim, lm, F.
   destruct_event e; cbn [txn_of] in Et'; inversion Et'; subst; cbn [stepr] in H;
@@ -160,5 +161,5 @@ Proof.
   all: try (okinv H).
   all: repeat match goal with |- context [match ?d with _ => _ end] => is_var d; destruct d eqn:? end.
   all: repeat match goal with |- context [if ?d then _ else _] => destruct d eqn:? end.
-  all: getc_keys; rd; b2p; split; intros; repeat split; auto; try congruence; try contradiction.
+  all: getc_keys; rd; repeat match goal with |- context [if ?d then _ else _] => destruct d eqn:? end; rd; b2p; split; intros; repeat split; auto; try congruence; try contradiction.
 Qed.
